@@ -33,6 +33,8 @@ pub enum Half {
 pub enum Counter {
     MpscRx(mpsc::Receiver<u64>),
     MpscTx(mpsc::Sender<u64>),
+    /// the receiver was shipped with `queued` items waiting in it, closed (before shipping) or not
+    MpscTxQueued(mpsc::Sender<u64>, u64, bool),
     OneshotRx(oneshot::Receiver<u64>),
     OneshotTx(oneshot::Sender<u64>),
     WatchRx(watch::Receiver<u64>),
@@ -96,8 +98,21 @@ fn new_half(rng: &mut Rng, label: u64, counters: &mut BTreeMap<u64, Counter>, al
             Half::MpscTx(tx)
         }
         1 => {
-            let (tx, rx) = mpsc::channel(4);
-            counters.insert(label, Counter::MpscTx(tx));
+            let (tx, mut rx) = mpsc::channel(4);
+            if rng.chance(40) {
+                // handed over while items are queued; in half of these cases the receiver is closed first
+                let queued = 1 + rng.below(3);
+                for i in 0..queued {
+                    let _ = tx.try_send(val(label, 10 + i));
+                }
+                let closed = rng.chance(50);
+                if closed {
+                    rx.close();
+                }
+                counters.insert(label, Counter::MpscTxQueued(tx, queued, closed));
+            } else {
+                counters.insert(label, Counter::MpscTx(tx));
+            }
             Half::MpscRx(rx)
         }
         2 => {
@@ -192,6 +207,24 @@ async fn exercise(label: u64, half: Half, counter: Counter) -> Result<u64, Strin
         (Half::MpscRx(mut rx), Counter::MpscTx(tx)) => {
             tx.send(val(label, 2)).await.map_err(|e| format!("send: {e}"))?;
             rx.recv().await.map_err(|e| format!("recv: {e}"))?.ok_or_else(|| "closed".to_string())
+        }
+        (Half::MpscRx(mut rx), Counter::MpscTxQueued(tx, queued, closed)) => {
+            // what was queued when the receiver was handed over arrives first, in order
+            for i in 0..queued {
+                match rx.recv().await {
+                    Ok(Some(v)) if v == val(label, 10 + i) => {}
+                    other => return Err(format!("queued item {i} of {queued} lost in the hand-over (closed before: {closed}): {other:?}")),
+                }
+            }
+            if closed {
+                match rx.recv().await {
+                    Ok(None) => Ok(val(label, 2)),
+                    other => Err(format!("closed receiver yields {other:?} after its queued items")),
+                }
+            } else {
+                tx.send(val(label, 2)).await.map_err(|e| format!("send: {e}"))?;
+                rx.recv().await.map_err(|e| format!("recv: {e}"))?.ok_or_else(|| "closed".to_string())
+            }
         }
         (Half::OneshotTx(tx), Counter::OneshotRx(rx)) => {
             tx.send(val(label, 1)).map_err(|e| format!("send: {e}"))?;
